@@ -347,7 +347,7 @@ fn runfail_w<C: CellType>(backend: &str, level: u32, kth: i64, src: &str, env: &
                     crate::alloc::MODE.store(1, Ordering::Relaxed);
                     let r = exec_with(&ex, Mode::Exec, env);
                     crate::alloc::MODE.store(0, Ordering::Relaxed);
-                    r
+                    format!("{} requests={}", r, crate::alloc::ZEROED_COUNT.load(Ordering::Relaxed))
                 }
                 Err(e) => format!("create-{}", err_string(&e)),
             }
@@ -362,7 +362,7 @@ fn runfail_w<C: CellType>(backend: &str, level: u32, kth: i64, src: &str, env: &
     }
 }
 
-/// runfail|backend|w|level|kth|src-hex|env : the kth zeroed allocation during execution fails
+/// runfail|backend|w|level|kth|src-hex|env : the kth allocation request (any kind) during execution fails
 pub fn runfail(f: &[&str]) -> String {
     let backend = f[0].to_string();
     let w: u32 = f[1].parse().unwrap();
